@@ -212,6 +212,8 @@ class Soap11(XmlDocument):
                                             XMLParser(**self.parser_kwargs),
                                                                         charset)
 
+        self._reject_entity_declarations(ctx.in_document[0])
+
     def decompose_incoming_envelope(self, ctx, message=XmlDocument.REQUEST):
         envelope_xml, xmlids = ctx.in_document
         header_document, body_document = _from_soap(envelope_xml, xmlids,
